@@ -757,7 +757,8 @@ def run_stall(case):
                 try:
                     m.dispatch(new_ele('b%d' % i))
                     burst['accepted'] += 1
-                except Exception:
+                except Exception as e:
+                    burst['refused'] = [exc_name(e), str(e)[:60], bool(m.connected)]
                     break
         st, _, bdt = FS.run_with_timeout(many, 5)
         burst['blocked'] = st == 'hang'
